@@ -5,6 +5,7 @@ harness/src/area_lv.rs) and `list?` on circular lists (interface 41).  The oracl
 independent reference store model of R7RS (Python objects with identity): it replays the
 sequence and checks, after every operation, the status, the written form of every pool
 object and the aliasing probe the implementation printed."""
+import os
 import re
 import sys
 sys.setrecursionlimit(20000)
@@ -1070,9 +1071,11 @@ def corpus():
     return out
 
 
-def generate(rng, tier):
-    n = 20000 if tier == "quick" else 500000
-    ncirc = 300 if tier == "quick" else 3000
+def _gen_chunk(args):
+    """one worker of the generator: its own PRNG, seeded from the run's PRNG"""
+    import random
+    seed, n = args
+    rng = random.Random(seed)
     cases, stats, lens = [], {}, {}
     for _ in range(n):
         c, st, nops = gen_sequence(rng)
@@ -1080,6 +1083,29 @@ def generate(rng, tier):
         lens[nops] = lens.get(nops, 0) + 1
         for k, v in st.items():
             stats[k] = stats.get(k, 0) + v
+    return cases, stats, lens
+
+
+def generate(rng, tier):
+    n = 20000 if tier == "quick" else 500000
+    ncirc = 300 if tier == "quick" else 3000
+    # the sequences are generated by 16 workers, each with a PRNG seeded from the run's PRNG (deterministic
+    # for a given VERIF_SEED whatever the scheduling: the chunks are concatenated in order)
+    nchunks = 16
+    jobs = [(rng.getrandbits(64), n // nchunks + (1 if k < n % nchunks else 0)) for k in range(nchunks)]
+    try:
+        import multiprocessing
+        with multiprocessing.get_context("fork").Pool(min(nchunks, os.cpu_count() or 4)) as pool:
+            parts = pool.map(_gen_chunk, jobs)
+    except Exception:  # noqa  (no fork available: same result, sequentially)
+        parts = [_gen_chunk(j) for j in jobs]
+    cases, stats, lens = [], {}, {}
+    for cs, st, ln in parts:
+        cases += cs
+        for k, v in st.items():
+            stats[k] = stats.get(k, 0) + v
+        for k, v in ln.items():
+            lens[k] = lens.get(k, 0) + v
     for _ in range(ncirc):
         cases.append(gen_circular(rng))
     return cases, {"sequences": n, "circular_list_cases": ncirc, "ops_per_sequence": {str(k): v for k, v in sorted(lens.items())},
